@@ -194,9 +194,8 @@ theorem armsZE_mono (tbl tbl' : Table) (ok ok' : String → Bool) (hle : TableLe
   | .ite c a b, h => by
     rw [armsZE] at h ⊢
     simp only [Bool.and_eq_true] at h ⊢
-    obtain ⟨⟨⟨⟨oc, oa⟩, ob⟩, ea⟩, eb⟩ := h
-    exact ⟨⟨⟨⟨armsZE_mono tbl tbl' ok ok' hle hok c oc, armsZE_mono tbl tbl' ok ok' hle hok a oa⟩,
-      armsZE_mono tbl tbl' ok ok' hle hok b ob⟩,
+    obtain ⟨⟨⟨oc, oa⟩, ea⟩, eb⟩ := h
+    exact ⟨⟨⟨armsZE_mono tbl tbl' ok ok' hle hok c oc, armsZE_mono tbl tbl' ok ok' hle hok a oa⟩,
       isStateless_mono (pubE_mono tbl tbl' hle a) ea⟩, isStateless_mono (pubE_mono tbl tbl' hle b) eb⟩
   | .tup es, h => by rw [armsZE] at h ⊢; exact armsZL_mono tbl tbl' ok ok' hle hok es h
   | .app f args, h => by
